@@ -11,6 +11,7 @@ import (
 	"log"
 	"os"
 	"path/filepath"
+	"perkeep.org/pkg/sorted"
 	"sort"
 	"strings"
 	"sync"
@@ -23,7 +24,70 @@ import (
 	"perkeep.org/pkg/blobserver/memory"
 )
 
-func init() { props["C11"] = runC11 }
+func init() {
+	props["C11"] = runC11
+	sorted.RegisterKeyValue("verifkv11", func(cfg jsonconfig.Obj) (sorted.KeyValue, error) {
+		name := cfg.RequiredString("name")
+		if err := cfg.Validate(); err != nil {
+			return nil, err
+		}
+		kv := &c11kv{KeyValue: sorted.NewMemoryKeyValue(), got: make(chan string, 64)}
+		c11kvMu.Lock()
+		c11kvs[name] = kv
+		c11kvMu.Unlock()
+		return kv, nil
+	})
+}
+
+// the meta index with one schedule perturbation: when armed, the next Set waits (up to 40 ms) until somebody has looked
+// the same key up - the packing goroutine started by this very upload does, when the upload crossed the threshold.
+// That is the interleaving "index row not yet written when the packer asks for it".
+type c11kv struct {
+	sorted.KeyValue
+	mu      sync.Mutex
+	armed   bool
+	waiting string
+	got     chan string
+}
+
+var (
+	c11kvMu sync.Mutex
+	c11kvs  = map[string]*c11kv{}
+)
+
+func (k *c11kv) Get(key string) (string, error) {
+	v, err := k.KeyValue.Get(key)
+	k.mu.Lock()
+	w := k.waiting
+	k.mu.Unlock()
+	if w != "" && w == key {
+		select {
+		case k.got <- key:
+		default:
+		}
+	}
+	return v, err
+}
+
+func (k *c11kv) Set(key, value string) error {
+	k.mu.Lock()
+	armed := k.armed
+	k.armed = false
+	if armed {
+		k.waiting = key
+	}
+	k.mu.Unlock()
+	if armed {
+		select {
+		case <-k.got:
+		case <-time.After(40 * time.Millisecond):
+		}
+		k.mu.Lock()
+		k.waiting = ""
+		k.mu.Unlock()
+	}
+	return k.KeyValue.Set(key, value)
+}
 
 // c11wrap instruments a wrapped store: effect log (puts / removes in order), every byte and name ever written,
 // injected RemoveBlobs failures, and raw access for tampering.
@@ -134,6 +198,10 @@ type c11env struct {
 	logbuf  *c11log
 	started bool
 	loose   bool // a start-up compacted: grouping of meta blobs no longer predictable
+	tag     string
+	opens   int
+	kv      *c11kv
+	acked   map[int]bool
 }
 
 type c11log struct {
@@ -159,11 +227,16 @@ func (e *c11env) open() error {
 	ld.set("/encblobs/", e.blobs)
 	ld.set("/encmeta/", e.meta)
 	s, err := blobserver.CreateStorage("encrypt", ld, jsonconfig.Obj{"I_AGREE": encAgreement, "keyFile": e.keyFile, "blobs": "/encblobs/", "meta": "/encmeta/",
-		"metaIndex": map[string]any{"type": "memory"}})
+		"metaIndex": map[string]any{"type": "verifkv11", "name": fmt.Sprintf("%s-%d", e.tag, e.opens)}})
 	if err != nil {
 		e.started = false
 		return err
 	}
+	c11kvMu.Lock()
+	e.kv = c11kvs[fmt.Sprintf("%s-%d", e.tag, e.opens)]
+	delete(c11kvs, fmt.Sprintf("%s-%d", e.tag, e.opens))
+	c11kvMu.Unlock()
+	e.opens++
 	e.sto = s
 	e.started = true
 	return nil
@@ -334,6 +407,23 @@ func (e *c11env) checkpoint(what string, fetchIDs []int) {
 		human = append([]string{fmt.Sprintf("... %d earlier steps ...", len(human)-60)}, human[len(human)-60:]...)
 	}
 	tampered := strings.Contains(strings.Join(e.ops, " "), "Junk") || strings.Contains(strings.Join(e.ops, " "), "Swap")
+	// recoverability, statically: every acknowledged blob is named by some meta blob (what a restart with an empty index
+	// rebuilds from); checked while nothing has been tampered with
+	if !tampered && err == nil {
+		named := map[int]bool{}
+		for _, m := range meta {
+			for _, id := range m {
+				named[id] = true
+			}
+		}
+		for id := range e.acked {
+			c.rep.SpecChecks++
+			if !named[id] {
+				c.violation(len(c.casesBuf), "c11-not-recovered", fmt.Sprintf("%s: acknowledged #%d is named by no meta blob: a restart with an empty meta index cannot find it", what, id), human)
+				break
+			}
+		}
+	}
 	c.addCase(fmt.Sprintf("CRun [%s] %s %s [%s] %s %s [%s]", strings.Join(e.ops, "; "), qb(!e.loose), qb(e.started), strings.Join(ms, "; "), c11list(blobs), c11list(index), strings.Join(fs, "; ")),
 		map[string]any{"checkpoint": what, "steps": len(e.ops), "last steps": human}, tampered || strings.Contains(strings.Join(e.ops, " "), "HJobUpload"))
 	c.count("checkpoints", what)
@@ -391,7 +481,7 @@ func newC11env(c *ctx, dir string, nplains int, tag string, rawStores bool) *c11
 	if rawStores {
 		bs, ms = newRawStore(), newRawStore()
 	}
-	e := &c11env{c: c, id: id, keyFile: kf, blobs: &c11wrap{name: "blobs", sto: bs}, meta: &c11wrap{name: "meta", sto: ms}, logbuf: &c11log{}}
+	e := &c11env{c: c, id: id, keyFile: kf, blobs: &c11wrap{name: "blobs", sto: bs}, meta: &c11wrap{name: "meta", sto: ms}, logbuf: &c11log{}, tag: tag}
 	for i := 0; i < nplains; i++ {
 		var p string
 		switch {
@@ -486,6 +576,15 @@ func c11Scenario(c *ctx, dir string, si int) {
 					c.count("steps", "failed receive "+st.name)
 				}
 			}
+			e.meta.mu.Lock()
+			nmeta := len(e.meta.order)
+			e.meta.mu.Unlock()
+			if !isRecv[id] && e.kv != nil && nmeta >= 100 && c.rng.Intn(2) == 0 { // this upload is likely to start the packer
+				e.kv.mu.Lock()
+				e.kv.armed = true // this upload's index row is written only after the packer (if it starts) has asked for it
+				e.kv.mu.Unlock()
+				c.count("steps", "receive with its index row held back")
+			}
 			if err := e.receive(id); err != nil {
 				c.violation(-1, "c11-receive-failed", fmt.Sprintf("receive #%d: %v", id, err), nil)
 				break
@@ -498,6 +597,10 @@ func c11Scenario(c *ctx, dir string, si int) {
 			} else {
 				isRecv[id] = true
 				received = append(received, id)
+				if e.acked == nil {
+					e.acked = map[int]bool{}
+				}
+				e.acked[id] = true
 			}
 			if len(received)%50 == 0 || n < 1000 && c.rng.Intn(30) == 0 {
 				e.settle()
@@ -512,8 +615,8 @@ func c11Scenario(c *ctx, dir string, si int) {
 				e.drainEvents(0)
 				e.checkpoint("after receives", sample(3))
 			}
-			if c.rng.Intn(150) == 0 {
-				// restart with a fresh meta index
+			if c.rng.Intn(150) == 0 || i == n {
+				// restart with a fresh meta index (always at the end)
 				e.settle()
 				e.drainEvents(0)
 				if mv, _, _, _ := e.views(); len(mv) > 100 {
